@@ -24,7 +24,7 @@ JudgeClip(c) ==
   IF c.b.k # "ok" THEN "ok:exception"
   ELSE LET A(p) == IF InVb(c.vb, p) THEN OutStack(c.a, p) ELSE <<>>
            B(p) == OutStack(c.b.layers, p)
-           Robust(p) == \A q \in Nbrs(p) : OutStack(c.a, q) = OutStack(c.a, p) /\ InVb(c.vb, q) = InVb(c.vb, p)
+           Robust(p) == LET cv == OutCover(c.a, p) IN \A q \in Nbrs(p) : OutCover(c.a, q) = cv /\ InVb(c.vb, q) = InVb(c.vb, p)
            bad == { p \in Samples(c.box) : B(p) # A(p) /\ Robust(p) }
            gv == PG!Violations(c.b.outp, 30, FALSE)   \* no digits are requested from clip_to_viewbox
            rv == PG!RefViolations(c.b.outp)           \* ... nor a gradient that lost its last user
